@@ -120,6 +120,7 @@ type Exec struct {
 	explicitOut                                int
 	HoldBursts                                 []string
 	handlerRemoved                             bool
+	BadAnnounces                               int
 	freezeOnce                                 sync.Once
 	frozenFlag                                 atomic.Bool
 }
@@ -244,7 +245,7 @@ func (e *Exec) Run(i int, st Step, knownStaleStop bool) {
 			return
 		}
 		e.Pubs[st.P].ExtendAds(st.N)
-	case "announce", "failannounce":
+	case "announce", "failannounce", "badannounce":
 		p := e.Pubs[st.P]
 		head := p.Chain[len(p.Chain)-1]
 		if n := len(e.Announced[st.P]); n > 0 && e.Announced[st.P][n-1] == head && !e.FailHeads[head.String()] {
@@ -265,6 +266,13 @@ func (e *Exec) Run(i int, st Step, knownStaleStop bool) {
 		e.Announced[st.P] = append(e.Announced[st.P], head)
 		e.dirty[st.P] = true
 		info := p.Info()
+		if st.Op == "badannounce" {
+			// sender information no sync can use: the sync fails before its first request, and the head may be
+			// announced again
+			info = p.BadInfo()
+			e.FailHeads[head.String()] = true
+			e.BadAnnounces++
+		}
 		// Issued synchronously: two Announce calls racing in their own goroutines could reach the receiver out
 		// of chain order, which the API forbids its callers (and which then loses the newer head). The call only
 		// waits for the receiver's one-slot hand-over to the watcher, which never waits for the harness.
